@@ -431,6 +431,18 @@ def check(chk):
         ok_p = src(pkd[0].args[1]) == var and all(r.lineno < pom[0].lineno for r in reass) and any('max(3,' in src(r.value) for r in reass)
     chk.judge(ok_c and ok_p, 'C07.coll', (DES, '_deserialize_map', des.line(mp)), 'map container is given the version the key bytes are decoded with (the inner, >= 3, one) on both sides',
               'the map container re-serialises keys with another version than the one its index bytes are in (compiled ok=%s, pure ok=%s): lookups by key fail on protocol 1/2' % (ok_c, ok_p))
+    # collection elements: the pure readers map a negative element length to None before slicing; the compiled element reader
+    # (subelem, shared by list / set / map) must do the same before slice_buffer, which rejects negative sizes
+    se = des.funcs().get('subelem')
+    if se is None:
+        raise AnalysisError('deserializers.pyx: subelem not found')
+    neg_tests = [text(cl.condition) for n in walk(se) if tname(n) == 'IfStatNode' for cl in n.if_clauses if 'elemlen' in text(cl.condition) and '<' in text(cl.condition)]
+    slices = [n for n in walk(se) if tname(n) == 'SimpleCallNode' and text(n.function) == 'slice_buffer']
+    pure_neg = all(any(isinstance(x, ast.If) and 'len < 0' in src(x.test).replace('item', '').replace('key', '').replace('val', '') for x in body_walk(C.find_method(cq.cls(cn_), 'deserialize_safe')[0]))
+                   for cn_ in ('_SimpleParameterizedType', 'MapType'))
+    chk.judge(bool(neg_tests) or not pure_neg, 'C07.null', (DES, 'subelem', des.line(se)), 'subelem: a negative element length is a null element (as in the pure list / set / map readers)',
+              'subelem hands the element length to slice_buffer unchecked (%d slice call(s), no `elemlen < 0` test): a null collection element raises "Length must be positive" in the '
+              'compiled parser where the pure decoder yields None' % len(slices))
     # tuple
     tf = own_deser('DesTupleType')
     pt, _ = C.find_method(cq.cls('TupleType'), 'deserialize_safe')
